@@ -28,6 +28,8 @@ CHECKS.update({
  "C20": node("§8 C20, §5 E-NODE + process restarts", "deterministic simulation of reorgs relative to the proposal window with clean restarts (new OS process) at arbitrary operation indexes",
    "After every tip change and after every restart (start-up reconstruction path) the snapshot's proposal view {set, gap} must equal the union over the model's window, for windows 1..3 / 2..11, chains shorter than the window and reorgs deeper than it."),
 })
+CHECKS["C07"] = node("§8 C07 (partial claim), §5 E-NODE long-epoch family", "deterministic simulation of long-epoch chains mined on a skewed/stalling/jumping simulated clock with varying uncle rates; node's epoch transitions vs exact big-rational re-computation plus issuance and conversion monitors",
+   "PARTIAL: for every epoch transition reached by simulated histories (300-1800 block epochs, clock regimes from 1 ms to days per block, uncle rates 0-20%, halvings) the node's next-epoch length, hash-rate estimate, difficulty/compact target and rewards must equal an independent exact-arithmetic evaluation, stay within the consensus bounds and the x2 dampening, epoch fields must be gap-free, per-epoch reward sums must equal scheduled issuance, and compact/target/difficulty conversions must agree with an independent implementation. Not decided: the same over all u64/U256 inputs and all compact encodings, and PoW acceptance - those are pure functions without schedule, clock or fault, outside this technique.")
 CHECKS["C08"] = dict(engine="simnode", category="fault_enumeration", design_ref="§8 C08, §5 E-CRASH",
    technique="deterministic simulation with process death injected at every durable write of a seeded import history (restart = new OS process on the same directories), checked against the replay model",
    text="For each seeded block-import history a fault-free run counts the durable writes W; then EVERY write index 1..W x {before, after} is tried as a process death (libc::_exit in the ckb-db write hook), plus seeded double crashes during recovery. After each restart: reopen succeeds, the store equals the model's replay of the tip it reports, work never decreases, stored-unverified blocks are picked up, the proposal view matches; after the remaining deliveries the node reaches the heaviest valid chain and the never-crashed state. Fault enumeration is right because the crash-point space of one history is finite (W writes); histories are sampled.",
@@ -53,6 +55,15 @@ CHECKS["C05"] = dict(engine="simscript", category="exploration", design_ref="§8
    technique="deterministic simulation of script execution interruption: chunk partitions (all single split points for small programs), captured-state rebuilds, and Suspend/Resume/Stop signals delivered at simulator-chosen VM cycle counts through a SimMachine wrapper, compared with the uninterrupted run",
    text="For a corpus of 45 program cases (VM 0/1/2; exec, spawn/pipe/wait trees incl. generated spawn DAGs, syscalls, secp256k1, TYPE_ID) the uninterrupted verify() gives (verdict, cost); every explored interruption schedule (chunk budgets, state dropped and rebuilt, signal schedules pinned to exact cycle counts, budgets cost-1/cost/cost+1) must give the same verdict and total cycles, budgets below cost must report the cycle limit. One defect fixed (budget restarting after a pause), one recorded as known finding (suspension with unprocessed pipe I/O).",
    note="Real TransactionScriptsVerifier/Scheduler/ckb-vm with the repo's compiled test programs; mock data loader; the signal path is driven through the generic DefaultMachineRunner seam (SimMachine), tokio runtime hand-driven. Programs are a fixed corpus plus generated spawn DAGs, not all programs.")
+
+CHECKS["C16"] = dict(engine="simpeer", category="exploration", design_ref="§8 C16, §5 E-PEER",
+   technique="deterministic simulation of a corrupting transport feeding the real decoders/accessors/context-free verifiers and the real Synchronizer/Relayer/LightClient/BlockFilter handlers, plus simulated relay rounds through the real Relayer::reconstruct_block with seeded pool contents and peer answers",
+   text="Second half (genuine simulation of relay state): compact blocks with random/illegal prefilled sets, pools holding random subsets plus colliding entries, peer answers that are subsets/supersets/wrong content; the result must be exactly the committed block, a precise Missing report, or a Collided/Error verdict, never another block. First half: valid messages of every protocol corrupted by seeded transport faults (bit flips, truncation, splices, extreme length fields, compress flag) must decode-or-fail without panic, within the decompression bound, canonically re-encode, and survive every accessor and context-free verifier; this half is generated-input checking carried by a transport-corruption fault and is labelled so in the evidence. Seven panics reachable from untrusted bytes were fixed; three accessor-level/third-party ones are recorded as known findings.",
+   note="One real node per OS process for the reconstruct/handlers parts (RocksDB on tmpfs, tx-pool service, SyncShared, Relayer, SimChain); short-id collisions are emulated; network-private handlers (ping, discovery, identify) are only decoded and walked.")
+CHECKS["C18"] = dict(engine="simidx", category="exploration", design_ref="§8 C18",
+   technique="deterministic simulation of an indexer-sync actor following a simulated chain through reorganisations (append/rollback/lag/prune) against the real ckb-indexer; answers compared with a naive filter over the model's live cells and transaction history; rollback-inverts-append checked on answers and KV rows",
+   text="After every append and rollback the real Indexer's tip, get_cells, get_transactions (grouped/ungrouped) and get_cells_capacity for generated search keys (exact/prefix, all filter kinds, both orders, cursor paging to exhaustion) must equal a direct filter over the model chain ending at the indexer's tip; arriving at a block by rollback must restore the answers and the live-prefix KV rows recorded when it was first appended, within the retention bound derived from prune. One defect fixed, two recorded as known findings (prefix key bleed, tip after rolling back genesis).",
+   note="Real Indexer over RocksDB (tmpfs) through a verif-hooks wrapper; the sync actor mimics IndexerSyncService::try_loop_sync; rich-indexer (sqlite), custom rhai filters, the pool overlay and the real sync service/secondary DB are not covered.")
 
 NA = {
  "C15": "pure encode/decode and hash functions of one value: no schedule, clock, fault or interleaving for a simulator to own (DESIGN.md §8 C15)",
@@ -92,6 +103,8 @@ def main():
         },
         "engines": [
             {"name": "simfrz", "path": "/verif/sim/simfrz", "serves_properties": ["C09"], "kind_free_text": "in-process deterministic simulation of freezer files with crash-state construction"},
+            {"name": "simpeer", "path": "/verif/sim/simpeer", "serves_properties": ["C16"], "kind_free_text": "corrupting-transport simulation over decoders/handlers and simulated relay rounds through the real Relayer"},
+            {"name": "simidx", "path": "/verif/sim/simidx", "serves_properties": ["C18"], "kind_free_text": "in-process simulation of indexer sync through reorgs against a naive filter model"},
             {"name": "simscript", "path": "/verif/sim/simscript", "serves_properties": ["C05"], "kind_free_text": "in-process deterministic simulation of script-execution interruption (chunks, captured state, signals at exact cycle counts)"},
             {"name": "simstruct", "path": "/verif/sim/simstruct", "serves_properties": ["C17"], "kind_free_text": "in-process deterministic simulation of sync bookkeeping structures against reference models"},
             {"name": "simnode", "path": "/verif/sim/simnode", "serves_properties": [p for p in CHECKS if CHECKS[p]["engine"] == "simnode"], "kind_free_text": "one real node (RocksDB, Shared, chain stages, verification) per OS process under a seeded step scheduler with a reference chain model; restarts and crashes are new OS processes on the same directories"},
